@@ -20,7 +20,8 @@ TECHNIQUE = "controlled-scheduler exploration of the real bus watcher / serial r
 RULE = ("histories of <= L bus transactions over an alphabet of 16 transaction kinds (plain, query+answer/silence/framing error, config "
         "twice/once/interrupted/+backward frame, enable-device-type + extended / unrelated command, 24-bit command, events, unknown "
         "frames, stray backward frame) x gap placement (timer before report) x subscriber join/leave points x own sends; "
-        "all schedules with <= d deviations; states = distinct (history, report list) observations")
+        "all schedules with <= d deviations; serial receive queues additionally: every sequence of <= 6 (thorough 7) operations "
+        "{frame arrives, subscriber k joins, subscriber k leaves}, k = 1..3, against set semantics; states = distinct (history, report list) observations")
 ASSUMPTIONS = [
     "Tridonic: foreign frames arrive as mode-0x11 reports, own transmissions as mode-0x12 reports (gateway model of dalimc.aio.hidworld); documented firmware quirk: a foreign forward frame equal to the interface's last transmission, seen after that transmission has completed, is reported with mode 0x12 and the old sequence number (the frames that follow it are reported normally)",
     "a timer that fires in the same loop iteration in which a report is being handed to the watcher is ambiguous (asyncio resolves it either way); the oracle accepts both readings for exactly those timers",
@@ -28,7 +29,8 @@ ASSUMPTIONS = [
     "frames are decoded with the device type of an immediately preceding ENABLE DEVICE TYPE only; a standard opcode under a foreign device type decodes to the generic unknown command (library convention, see C01)",
 ]
 SANITY = ["tridonic_reports", "tridonic_gaps", "tridonic_subscriber_deliveries", "tridonic_failed_config_reports",
-          "tridonic_quirk_reports", "luba_reports", "sci_reports", "luba_extra_subscriber_reports", "sci_extra_subscriber_reports"]
+          "tridonic_quirk_reports", "luba_reports", "sci_reports", "luba_extra_subscriber_reports", "sci_extra_subscriber_reports",
+          "luba_subscriber_op_sequences", "sci_subscriber_op_sequences"]
 BOUNDS = {"quick": "Tridonic: histories len<=2 at d<=2, len 3 at d<=1; serial: histories len<=3 (single schedule + chunk placement d<=1); subscribers <=2",
           "thorough": "Tridonic: len<=3 at d<=2, len 4 at d<=1; serial len<=4; subscribers <=3"}
 
@@ -539,6 +541,98 @@ def judge_serial(res, cfg, w, obs):
     return tuple(len(v) for v in w.qlogs.values())
 
 
+# ----------------------------------------------------------------------------- subscriber operation sequences (serial)
+
+SUB_OPS = [("frame",)] + [("sub", k) for k in (1, 2, 3)] + [("unsub", k) for k in (1, 2, 3)] + [("drop", k) for k in (1, 2)]
+
+
+def run_sub_sequences(res, outs, drv, first, depth):
+    """Every sequence of <= depth operations {frame arrives, subscriber k joins, subscriber k leaves} (k = 1..3, first
+    operation fixed by the shard) on ONE connected driver, against set semantics: a queue receives exactly the
+    frames that arrived while it was subscribed; leaving removes that queue only.  Two ways of leaving: "unsub" =
+    del_handler() on the parent queue, "drop" = the subscriber drops its only reference to the queue (the class
+    unregisters in __del__; new_dali_rx_queue() offers no other way).  A dropped queue is watched through a weak
+    reference: it must be gone, or at least receive nothing any more.  Joining twice / leaving while not
+    subscribed are not operations (skipped sequences are not counted)."""
+    import gc
+    import weakref
+    from dalimc.aio.serialworld import luba_rx_event, sci_frame
+    from dalimc.core.explorer import Chooser
+
+    def frame_bytes(n):
+        fb = [0xFE, n & 0xFF]                      # DAPC broadcast, level n: every frame is distinguishable
+        return luba_rx_event(fb) if drv == "luba" else sci_frame(0x53, 0, *fb)
+
+    def sequences(prefix, d):
+        yield prefix
+        if d == 0:
+            return
+        for op in SUB_OPS:
+            yield from sequences(prefix + [op], d - 1)
+    mk = make_serial_world(drv, (), 0, False)
+    for ops in sequences([SUB_OPS[first]], depth - 1):
+        # legality: join only when absent, leave only when present
+        present, legal = set(), True
+        for op in ops:
+            if op[0] == "sub":
+                legal &= op[1] not in present
+                present.add(op[1])
+            elif op[0] in ("unsub", "drop"):
+                legal &= op[1] in present
+                present.discard(op[1])
+        if not legal:
+            continue
+        w, obs = execute(mk, Chooser(()))          # default schedule: connect, permanent subscriber 0 created
+        queues, logs, exp = {0: w.queues[0]}, {0: []}, {0: []}
+        dropped = []                                # (k, weakref, frames seen before the drop)
+        n = 0
+        case = {"t": "subs", "driver": drv, "ops": [list(o) for o in ops]}
+        try:
+            for op in ops:
+                if op[0] == "frame":
+                    n += 1
+                    w.protocol.data_received(frame_bytes(n))
+                    for k in queues:
+                        exp[k].append(n)
+                elif op[0] == "sub":
+                    queues[op[1]] = w.driver.new_dali_rx_queue()
+                    logs.setdefault(op[1], [])
+                    exp.setdefault(op[1], [])
+                else:
+                    q = queues.pop(op[1])
+                    while not q.empty():
+                        logs[op[1]].append(q.get_nowait().frame.as_integer & 0xFF)
+                    if op[0] == "unsub":
+                        w.driver._protocol.queue_rx_dali.del_handler(q)
+                        after_unsub = q             # keep it: nothing may arrive in it any more
+                        dropped.append((op[1], (lambda q=q: q), "unsub"))
+                    else:
+                        dropped.append((op[1], weakref.ref(q), "drop"))
+                    del q
+                    gc.collect(0)
+            for k, ref, how in dropped:
+                q = ref()
+                if q is not None and not q.empty():
+                    add_violation(res, f"C20:{drv}:delivery-after-{how}",
+                                  f"{drv} operations {ops}: subscriber {k} left ({how}) but its queue still received {q.qsize()} frame(s)", case)
+                    break
+            for k, q in queues.items():
+                while not q.empty():
+                    logs[k].append(q.get_nowait().frame.as_integer & 0xFF)
+        except Exception as e:
+            add_violation(res, f"C20:{drv}:subscriber-ops-raise", f"{drv} {ops}: {e!r}", case)
+            continue
+        res["evaluations"] += 1
+        res["transitions"] += len(ops)
+        observe(res, f"{drv}_subscriber_op_sequences")
+        if logs != exp:
+            bad = sorted(k for k in exp if logs.get(k) != exp[k])
+            add_violation(res, f"C20:{drv}:subscriber-delivery",
+                          f"{drv} operations {ops}: subscribers {bad} received {[logs.get(k) for k in bad]}, expected {[exp[k] for k in bad]} "
+                          f"(frames numbered in arrival order)", case)
+        outs.add((drv, "subs", tuple(tuple(v) for v in logs.values())))
+
+
 # ----------------------------------------------------------------------------- shards
 
 def shards(tier):
@@ -576,6 +670,9 @@ def shards(tier):
         out.append(("serial", drv, sel + [("unknown16", "plain"), ("edt+plain", "unknown16")], 2, 2 if tier == "quick" else 3, False))
         out.append(("serial", drv, [("event-devinst",), ("event-devinst", "unknown24"), ("edt+ext", "event-devinst")], 1, 0, True))
         out.append(("serial", drv, [("plain",), ("edt+ext",), ("unknown16",)], 1, 0, False, "own"))
+    for drv in ("luba", "sci"):
+        for first in range(len(SUB_OPS)):
+            out.append(("subs", drv, first, 6 if tier == "quick" else 7))
     out.append(("hasseb",))
     return out
 
@@ -590,6 +687,9 @@ def run_shard(shard):
             cfg = dict(kinds=list(h), nsubs=nsubs, own=opt if opt in ("query", "twice") else None, with_map=(opt == "map"), bound=bound)
             run_trid(cfg, bound, res, outs)
         sample(res, {"driver": "tridonic", "histories": len(hists), "example": list(hists[-1]), "bound": bound, "subscribers": nsubs, "option": opt})
+    elif k == "subs":
+        run_sub_sequences(res, outs, shard[1], shard[2], shard[3])
+        sample(res, {"driver": shard[1], "subscriber_operation_sequences_from": list(SUB_OPS[shard[2]]), "depth": shard[3]})
     elif k == "serial":
         drv, hists, bound, nsubs, with_map = shard[1:6]
         own = shard[6] if len(shard) > 6 else None
@@ -638,6 +738,10 @@ def replay(case):
     if t == "tridonic":
         cfg = {k: v for k, v in case.items() if k != "t"}
         run_trid(cfg, cfg.get("bound", 2), res, outs)
+    elif t == "subs":
+        ops = [tuple(o) for o in case["ops"]]
+        run_sub_sequences(res, outs, case["driver"], SUB_OPS.index(ops[0]), len(ops))
+        return [v for v in res["violations"] if v["case"].get("ops") == case["ops"]] or res["violations"]
     elif t == "serial":
         cfg = {k: v for k, v in case.items() if k != "t"}
         mk = make_serial_world(cfg["driver"], tuple(cfg["kinds"]), cfg.get("nsubs", 0), cfg.get("with_map", False), cfg.get("own"))
